@@ -112,8 +112,14 @@ def safe_deepcopy(x, _depth=0):
 def check_once(contract_cls, fn, args: dict, clauses=None):
     """-> (status, failures)  status: ok | skipped | fail ; failures: [(clause, detail)]"""
     try:
-        if hasattr(contract_cls, "requires") and not contract_cls.requires(**args):
-            return "skipped", []
+        base = None
+        if getattr(contract_cls, "inherits", None):
+            # a variant contract: the inherited precondition and its own addition both have to hold
+            import sys as _sys
+            base = getattr(_sys.modules[contract_cls.__module__], contract_cls.inherits, None)
+        for holder, nm in ((base, "requires"), (contract_cls, "requires"), (contract_cls, "requires_extra")):
+            if holder is not None and hasattr(holder, nm) and not getattr(holder, nm)(**args):
+                return "skipped", []
     except Exception as e:
         return "skipped", [("requires-raised", repr(e))]
     # assumed lemma instances (assume_*) are part of the hypotheses: inputs outside them are not counterexamples
@@ -139,7 +145,11 @@ def check_once(contract_cls, fn, args: dict, clauses=None):
             result = asyncio.run(result)
     except Exception as e:  # noqa
         raised = e
-    allowed = getattr(contract_cls, "raises", [])
+    allowed = getattr(contract_cls, "raises", None)
+    if allowed is None and getattr(contract_cls, "inherits", None):
+        import sys as _sys
+        allowed = getattr(getattr(_sys.modules[contract_cls.__module__], contract_cls.inherits, None), "raises", [])
+    allowed = allowed or []
     if raised is not None:
         names = [c.__name__ for c in type(raised).__mro__]
         allowed_names = list(allowed) if not isinstance(allowed, dict) else list(allowed.keys())
